@@ -36,9 +36,14 @@ class Prov:
         self.param_atoms = param_atoms        # inside a helper: its parameters stand for already checked values
 
     def _is_source(self, e: ast.AST) -> bool:
-        """e denotes a source string: <state>.src, or a str parameter of a helper, or a local bound to a source slice."""
+        """e denotes a source string: <state>.src, or a local alias of it (src = state.src)."""
         if isinstance(e, ast.Attribute) and e.attr == "src" and self.sc.type(e.value) in ("StateBlock", "StateInline", "StateCore"):
             return True
+        if isinstance(e, ast.Name):
+            ds = [n.value for n in own_nodes(self.f.node) if isinstance(n, ast.Assign) and any(isinstance(t, ast.Name) and t.id == e.id for t in n.targets)]
+            others = [n for n in own_nodes(self.f.node) if isinstance(n, ast.Name) and n.id == e.id and isinstance(n.ctx, ast.Store)
+                      and not isinstance(self.f.module.parents.get(n), ast.Assign)]
+            return bool(ds) and not others and all(self._is_source(d) for d in ds)
         return False
 
     def bad(self, e: ast.AST, at: ast.AST, field: str, seen: frozenset[str] = frozenset(), depth: int = 0) -> str:
@@ -46,7 +51,8 @@ class Prov:
         if depth > 8:
             return f"derivation of `{U(e)[:40]}` too deep to follow"
         if isinstance(e, ast.Constant):
-            return "" if isinstance(e.value, (str, int)) else f"`{U(e)}`"
+            # None stands for "no such text" (a helper that found nothing): the caller's test decides, nothing is recorded
+            return "" if isinstance(e.value, (str, int)) or e.value is None else f"`{U(e)}`"
         if isinstance(e, ast.Subscript):
             if self._is_source(e.value):
                 return ""                                          # src[a:b] / src[i]
